@@ -1,13 +1,13 @@
 (* Props/C09.v — property C09: dynamic linking information is exact, with or without
    section headers.  Only statements, closed by [exact]; proofs live in
-   Proofs/C09Tables.v, C09Tags.v, C09Hash.v, C09Views.v (C09Examples.v: the inputs of the Examples).
+   Proofs/C09Tables.v, C09Tags.v, C09Hash.v, C09Views.v, C09Relocs.v, C09Syms.v (C09Examples.v: the inputs of the Examples).
    Model: Model/C09Dynamic.v (transliteration of elf/dynamic.py, elf/hash.py
    get_number_of_symbols, the parts of elf/elffile.py, sections.py, relocation.py the
    Dynamic classes call; record layouts and decoding dicts are regenerated from the live
    code into Gen/ElfLayouts.v).  Meaning: Spec/C09Dyn.v (gABI dynamic section, hash
    tables, program header; GNU hash format). *)
 From PV Require Import Base.Outcome Base.Fmt Base.Enum Gen.ElfLayouts Spec.ElfGabi Spec.C09Dyn Model.C09Dynamic.
-From PV Require Import Proofs.C09Tables Proofs.C09Tags Proofs.C09Hash Proofs.C09Views Proofs.C09Examples.
+From PV Require Import Proofs.C09Tables Proofs.C09Tags Proofs.C09Hash Proofs.C09Views Proofs.C09Relocs Proofs.C09Syms Proofs.C09Examples.
 Open Scope string_scope.
 Open Scope list_scope.
 Open Scope Z_scope.
@@ -200,3 +200,37 @@ Example C09_views_agree_nonvacuous :
   Ok [(EN "DT_NEEDED", 1, Some [108; 105; 98; 99]); (EN "DT_SONAME", 6, Some [102; 111; 111]);
       (EN "DT_STRTAB", 4368, None); (EN "DT_NEEDED", 1, Some [108; 105; 98; 99]); (EN "DT_NULL", 0, None)].
 Proof. vm_compute. repeat split. discriminate. Qed.
+
+(* ---- views_agree (relocation tables): under the same hypotheses, the relocation tables that
+   get_relocation_tables builds (REL / RELA / RELR / JMPREL with their flavour), and every entry
+   iter_relocations reads from them, are the same from the DynamicSegment of the stripped image, from
+   the DynamicSegment of the original and from the DynamicSection of the original *)
+Theorem C09_views_agree_relocs : forall img img',
+  consistent_b img = true -> stripped_of_b img img' = true ->
+  segment_relocs img' = section_relocs img /\ segment_relocs img = section_relocs img.
+Proof. exact views_agree_relocs. Qed.
+Print Assumptions C09_views_agree_relocs.
+
+Example C09_views_agree_relocs_nonvacuous :
+  consistent_b ex2_img = true /\ stripped_of_b ex2_img ex2_img' = true /\
+  segment_relocs ex2_img' =
+  Ok [(RelTable "RELA" (Some 282) 48 true, Ok [(8192, 4294967303, Some (-8)); (8200, 8, Some 4660)])].
+Proof. vm_compute. repeat split. Qed.
+
+(* ---- views_agree (dynamic symbols) + count_from_hash at work: for EVERY image satisfying
+   sym_consistent_b (consistent_b, a SHT_DYNSYM section of standard entry size linked to the same
+   string table, DT_SYMTAB mapped to it, every st_name inside the table, and a GNU hash table - or,
+   without one, a SysV hash table - valid for its entry count) and every byte image that is its
+   stripped form, the symbols the DynamicSegment of the stripped image enumerates (count recovered
+   from the hash table, entries through DT_SYMTAB, names through DT_STRTAB) are exactly the entries
+   and names of the SHT_DYNSYM section of the original, in order *)
+Theorem C09_views_agree_symbols : forall img img',
+  sym_consistent_b img = true -> stripped_of_b img img' = true -> all_bytes img' = true ->
+  segment_symbols img' = section_symbols_view img.
+Proof. exact views_agree_symbols. Qed.
+Print Assumptions C09_views_agree_symbols.
+
+Example C09_views_agree_symbols_nonvacuous :
+  sym_consistent_b ex3_img = true /\ stripped_of_b ex3_img ex3_img' = true /\ all_bytes ex3_img' = true /\
+  match segment_symbols ex3_img' with Ok l => Some (map snd l) | Err _ => None end = Some [[]; [102; 111; 111]].
+Proof. vm_compute. repeat split. Qed.
